@@ -415,6 +415,19 @@ func c10Codec(c *c10Case) mon.Result {
 			_ = cd.Decode(NewPD(uinfo, tmp.Frames[0]), tmp2, nil)
 		}
 	}
+	// ... and after calls the codec has to reject (a frame cut short behind a good one, a
+	// stream cut short): whatever an error path leaves behind must not reach the next call.
+	// Their own outcome is judged by C17 / C08, not here.
+	func() {
+		defer func() { _ = recover() }()
+		short := append([]byte(nil), keep[0][:len(keep[0])-1-len(keep[0])/3]...)
+		_ = cd.Encode(NewPD(info, append([]byte(nil), keep[0]...), short), NewPD(info), c10Params(cd, c.PKind))
+		_ = cd.Encode(NewPD(info, short), NewPD(info), c10Params(cd, c.PKind))
+		if len(enc.Frames[0]) > 8 {
+			cut := append([]byte(nil), enc.Frames[0][:len(enc.Frames[0])*2/3]...)
+			_ = cd.Decode(NewPD(info, cut), NewPD(info), nil)
+		}
+	}()
 	again := NewPD(info)
 	if err := cd.Encode(NewPD(info, frames...), again, c10Params(cd, c.PKind)); err != nil {
 		return fail("encode-error", "repeat: "+err.Error())
